@@ -52,16 +52,27 @@ def run(eng, ctx):
             if recv[0] in ("loop", "loopout") or recv[0] == "list":
                 tainted_vars.add(recv[2] if recv[0] in ("loop", "loopout") else None)
             appends.append(e)
+    # a label list built by a comprehension: its elements depend on the option, its length (iteration domain, filter) does not
+    label_comps = set()
+    for v in list(se.final.env.values() if se.final else []) + [x.term for x in se.effects]:
+        for st in subterms(v):
+            if isinstance(st, tuple) and len(st) == 4 and st[0] == "comp" and st[1] == "ListComp" and mentions(st[2], LF):
+                li = se.loop_info.get(st[3], {})
+                if li.get("comp") and not mentions(li.get("iter", ("?",)), LF) and not any(mentions(c, LF) for c in li.get("conds", [])):
+                    label_comps.add(st)
+
     def strip_len(t):
         """The *length* of the label list does not depend on the option (its appends are guarded by mask bits only): len(list) is cut out."""
         if isinstance(t, tuple) and t:
             if t[0] == "call" and t[2] == ("builtin", "len") and len(t[3]) == 1 and t[3][0][0] in ("loop", "loopout") and t[3][0][2] in tainted_vars:
                 return ("const", 0)
+            if t[0] == "call" and t[2] == ("builtin", "len") and len(t[3]) == 1 and t[3][0] in label_comps:
+                return ("const", 0)
             return tuple(strip_len(x) if isinstance(x, tuple) else x for x in t)
         return t
 
     dep = lambda t: mentions(strip_len(t), lambda s: LF(s) or (s[0] in ("loop", "loopout") and s[2] in tainted_vars))  # noqa: E731
-    ctx.check(len(appends) == 1, "C16.D1", mb.qualname, "option-dependent appends", expected="exactly one (the signal label)", found=str(len(appends)), **eng.loc(mb, mb.node))
+    ctx.check(len(appends) + len(label_comps) == 1, "C16.D1", mb.qualname, "option-dependent appends", expected="exactly one (the signal label list: one append, or one comprehension)", found=f"{len(appends)} append(s), {len(label_comps)} comprehension(s)", **eng.loc(mb, mb.node))
     for e in se.effects:
         loc = eng.loc(mb, e.node)
         gdep = [c for conj in e.dnf for c, _ in conj if dep(c)]
@@ -94,8 +105,9 @@ def run(eng, ctx):
                 ctx.bad("C16.D1", mb.qualname, f"{var} in loop at line {info['node'].lineno}", expected="counters and maps independent of the option", found=show(term)[:100], **eng.loc(mb, info["node"]))
     # ---------------- D2 one construction site
     ctx.rule("C16.D2", "the label is table.get(signal ID, default)[k] with k chosen by the option alone")
-    for e in appends:
-        alts = leaves(e.term[3][0])
+    label_exprs = [(e, e.term[3][0]) for e in appends] + [(next((x for x in se.effects if x.loops and x.loops[-1] == ct[3]), se.effects[0]), ct[2]) for ct in sorted(label_comps, key=repr)]
+    for e, lexpr in label_exprs:
+        alts = leaves(lexpr)
         gets = set()
         for g, leaf in alts:
             ok = leaf[0] == "idx" and is_const(leaf[2]) and leaf[1][0] == "call" and leaf[1][2][0] == "attr" and leaf[1][2][2] == "get"
